@@ -179,6 +179,7 @@ def specRoot (n : Nat) (i : Nat) : Option Nat := if i < n then some 0 else none
 XPath 3.1 §3.3: every operand of an operator is evaluated in the dynamic context (focus) of the
 operator expression itself.  Codes: `D<n>` = `//n`, `T` = `/*`, `K<n>` = `/*/n` (absolute);
 `c<n>` = `n`, `d<n>` = `.//n`, `p` = `..`, `s` = `.`, `t` = `@*` (relative to the focus);
+`I<n>`/`O<n>` = `innermost(//n)`/`outermost(//n)`, `i<n>`/`o<n>` = the same over `.//n`;
 `<n>` is a local name or `*`; a trailing `1` takes the first node in document order (`(E)[1]`). -/
 
 def elemNamed (it : Item) (n : String) : Bool :=
@@ -197,6 +198,12 @@ def pathEvalCore (items : List Item) (focus : Nat) (form : Char) (n : String) : 
   | 'p' => ((get focus).bind (·.parent)).toList
   | 's' => [focus]
   | 't' => all.filter fun i => (get i).any fun it => it.kind == .attribute && it.parent == some focus
+  | 'I' => specInnermost items (all.filter fun i => (get i).any (elemNamed · n))         -- innermost(//n)
+  | 'O' => specOutermost items (all.filter fun i => (get i).any (elemNamed · n))         -- outermost(//n)
+  | 'i' => specInnermost items (all.filter fun i => (get i).any fun it =>
+      elemNamed it n && isAncestor items focus i items.length)                          -- innermost(.//n)
+  | 'o' => specOutermost items (all.filter fun i => (get i).any fun it =>
+      elemNamed it n && isAncestor items focus i items.length)                          -- outermost(.//n)
   | _ => []
 
 def pathEval (items : List Item) (focus : Nat) (code : String) : List Nat :=
